@@ -40,7 +40,7 @@ Definition wf_module (m : f_module) : bool :=
   wf_pts (m_eff m) && wf_fuel (m_fuel m) (m_origin m) && wf_uid (m_uid m) && positive (m_rated m).
 
 Definition wf_stage (g : f_stage) : bool :=
-  wf_pts (g_eff g) && wf_uid (g_uid g) &&
+  wf_pts (g_eff g) && wf_uid (g_uid g) && negb (Qle_bool (g_rated g) 0) &&
   match g_kind g with
   | KMachine => true
   | KTransformer | KConverter => match g_speed g with Qmake Z0 xH => true | _ => false end
@@ -197,15 +197,19 @@ Lemma stage_eta g : {| g_kind := g_kind g; g_name := g_name g; g_rated := g_rate
                        g_uid := g_uid g |} = g.
 Proof. destruct g; reflexivity. Qed.
 
-Lemma wf_stage_parts g : wf_stage g = true -> wf_pts (g_eff g) = true /\ wf_uid (g_uid g) = true.
-Proof. unfold wf_stage. intros H. apply andb_true_iff in H as [H _]. apply andb_true_iff in H. exact H. Qed.
+Lemma wf_stage_parts g : wf_stage g = true ->
+  wf_pts (g_eff g) = true /\ wf_uid (g_uid g) = true /\ Qle_bool (g_rated g) 0 = false.
+Proof.
+  unfold wf_stage. intros H. apply andb_true_iff in H as [H _]. apply andb_true_iff in H as [H R].
+  apply andb_true_iff in H as [A B]. apply negb_true_iff in R. auto.
+Qed.
 
 Lemma dec_stage_e_enc k g o : wf_stage g = true -> g_kind g = k -> (k = KTransformer \/ k = KConverter) ->
   dec_stage_e fresh k (stage_ecomp g o) = Some (o, g).
 Proof.
-  intros W K Hk. destruct (wf_stage_parts g W) as [We Wu].
+  intros W K Hk. destruct (wf_stage_parts g W) as (We & Wu & Wr).
   unfold dec_stage_e, stage_ecomp. cbn [pc_eff pc_order pc_name pc_rated pc_uid].
-  rewrite (dec_enc_eff _ We), (dec_uid_wf fresh _ Wu).
+  rewrite (dec_enc_eff _ We), (dec_uid_wf fresh _ Wu), Wr.
   unfold wf_stage in W. apply andb_true_iff in W as [_ W]. rewrite K in W.
   destruct g as [kind name rated speed eff uid]. cbn [g_kind g_speed g_name g_rated g_eff g_uid] in *. subst kind.
   destruct Hk as [-> | ->]; destruct speed as [[| |] [| |]]; try discriminate; reflexivity.
@@ -214,9 +218,9 @@ Qed.
 Lemma dec_stage_m_enc g o : wf_stage g = true -> g_kind g = KMachine ->
   dec_stage_m fresh (stage_mach g o) = Some (o, g).
 Proof.
-  intros W K. destruct (wf_stage_parts g W) as [We Wu].
+  intros W K. destruct (wf_stage_parts g W) as (We & Wu & Wr).
   unfold dec_stage_m, stage_mach. cbn [pm_eff pm_order pm_name pm_rated pm_speed pm_uid].
-  rewrite (dec_enc_eff _ We), (dec_uid_wf fresh _ Wu).
+  rewrite (dec_enc_eff _ We), (dec_uid_wf fresh _ Wu), Wr.
   destruct g as [kind name rated speed eff uid]. cbn [g_kind] in K. subst kind. reflexivity.
 Qed.
 
